@@ -1,527 +1,891 @@
-(** Proofs about the storyline functions (property C06), part 2:
-    [validate_storyline] against [Denote.acts_of] / [Denote.wf_story], and the
-    `storyline` / `edit` clauses of a script against [Denote.story_step] and
-    [Denote.den_story_from]. *)
-From Shk Require Import Base.Prelude Model.Storyline Model.Compile Model.Denote Proofs.StorylineProofs.
+(** C13 — proofs about Model/Script.v: the state of the mini-shell at the
+    point where the user's command starts. *)
+From Shk Require Import Base.Prelude Model.Dirs Model.Script Proofs.DirsProofs.
+From Coq Require Import Strings.String DecimalN.
 
-Local Open Scope nat_scope.
+(** * Bytes and character classes *)
 
-Definition is_err {A} (o : Outcome A) : Prop := match o with Err _ => True | _ => False end.
 
-(** Domain of the text-level statements: no white space other than ' '. *)
-Definition no_ctl (s : bytes) : Prop := forall c, In c s -> is_space c = true -> c = b_sp.
 
-(** * Go's Split / TrimSpace / ReplaceAll against the denotation's text functions *)
-Lemma split_on_cons s : exists p ps, split_on is_sp s = p :: ps.
-Proof.
-  induction s as [|c tl (p & ps & IH)]; cbn; [eauto|].
-  destruct (is_sp c); [eauto|]. rewrite IH. eauto.
-Qed.
 
-Lemma pieces_split s : forall cur,
-  pieces c_sp s cur = (rev cur ++ hd [] (split_on is_sp s)) :: List.tl (split_on is_sp s).
-Proof.
-  induction s as [|c tl IH]; intros cur; cbn.
-  - rewrite app_nil_r. reflexivity.
-  - change (Byte.eqb c c_sp) with (is_sp c). destruct (is_sp c) eqn:E; cbn.
-    + rewrite app_nil_r, (IH []). cbn. destruct (split_on_cons tl) as (p & ps & ->). reflexivity.
-    + rewrite (IH (c :: cur)). destruct (split_on_cons tl) as (p & ps & ->). cbn.
-      rewrite <- app_assoc. reflexivity.
-Qed.
+Lemma name_char_harmless c : is_name_char c = true -> harmless c = true.
+Proof. unfold harmless; intros ->; reflexivity. Qed.
 
-Lemma pieces_split0 s : pieces c_sp s [] = split_on is_sp s.
-Proof. rewrite pieces_split. cbn. destruct (split_on_cons s) as (p & ps & ->). reflexivity. Qed.
-
-Lemma strip_split s : map strip_us (split_on is_sp s) = split_on is_sp (strip_us s).
-Proof.
-  induction s as [|c tl IH]; [reflexivity|].
-  cbn [split_on]. destruct (is_sp c) eqn:E.
-  - assert (U : is_us c = false) by (apply byte_eqb_eq in E; subst c; reflexivity).
-    unfold strip_us at 2. cbn [filter]. rewrite U. cbn [negb split_on]. rewrite E.
-    cbn [map]. fold (strip_us tl). rewrite <- IH. reflexivity.
-  - destruct (split_on_cons tl) as (p & ps & Es). rewrite Es in IH. rewrite Es. cbn [map] in IH |- *.
-    unfold strip_us at 1 3. cbn [filter]. destruct (is_us c) eqn:U; cbn [negb].
-    + fold (strip_us p) (strip_us tl). exact IH.
-    + cbn [split_on]. rewrite E. fold (strip_us p) (strip_us tl). rewrite <- IH. reflexivity.
-Qed.
-
-Lemma acts_of_split text :
-  acts_of text = filter nonempty (map strip_us (split_on is_sp text)).
-Proof. unfold acts_of. rewrite pieces_split0, strip_split. reflexivity. Qed.
-
-Lemma split_on_in s : forall p c, In p (split_on is_sp s) -> In c p -> In c s /\ is_sp c = false.
-Proof.
-  induction s as [|x tl IH]; cbn; intros p c Hp Hc.
-  - destruct Hp as [<- | []]. destruct Hc.
-  - destruct (is_sp x) eqn:E.
-    + destruct Hp as [<- | Hp]; [destruct Hc|]. destruct (IH p c Hp Hc). auto.
-    + destruct (split_on_cons tl) as (q & qs & Es). rewrite Es in *.
-      destruct Hp as [<- | Hp].
-      * destruct Hc as [<- | Hc]; [auto|]. destruct (IH q c (or_introl eq_refl) Hc). auto.
-      * destruct (IH p c (or_intror Hp) Hc). auto.
-Qed.
-
-Lemma trim_left_id s : (forall c, In c s -> is_space c = false) -> trim_left s = s.
-Proof. destruct s as [|c tl]; cbn; intros H; [reflexivity|]. rewrite (H c (or_introl eq_refl)). reflexivity. Qed.
-
-Lemma trim_space_id s : (forall c, In c s -> is_space c = false) -> trim_space s = s.
-Proof.
-  intros H. unfold trim_space. rewrite (trim_left_id s H), trim_left_id, rev_involutive; [reflexivity|].
-  intros c Hc. apply H. apply in_rev. exact Hc.
-Qed.
-
-(** * validate_part *)
-Definition charok (dfn : byte -> bool) (c : byte) : bool :=
-  Byte.eqb c c_plus || Byte.eqb c c_dot || (scene_char c && dfn c).
-
-Definition after_plus (prev : option byte) : bool :=
-  match prev with None => true | Some p => is_plus p end.
-
-Lemma wf_act_okb dfn a :
-  wf_act dfn a = nonempty a && okb true a && forallb (charok dfn) a.
-Proof. unfold wf_act. rewrite pieces_okb. reflexivity. Qed.
-
-Lemma okb_true_nonempty a : okb true a = true -> nonempty a = true.
-Proof. destruct a; [discriminate | reflexivity]. Qed.
-
-Lemma validate_part_spec dfn n s : forall prev,
-  (after_plus prev = true -> s <> []) ->
-  (forall c, In c s -> is_space c = false /\ is_us c = false) ->
-  (okb (after_plus prev) s && forallb (charok dfn) s = true -> validate_part dfn n prev s = Ok tt)
-  /\ (okb (after_plus prev) s && forallb (charok dfn) s = false -> is_err (validate_part dfn n prev s)).
-Proof.
-  induction s as [|c tl IH]; intros prev Hne Hch.
-  - cbn. destruct (after_plus prev); [exfalso; apply Hne; reflexivity|].
-    split; [reflexivity | discriminate].
-  - destruct (Hch c (or_introl eq_refl)) as [Hsp Hus].
-    assert (Hch' : forall x, In x tl -> is_space x = false /\ is_us x = false)
-      by (intros x Hx; apply Hch; right; exact Hx).
-    assert (Esp : is_sp c = false).
-    { destruct (is_sp c) eqn:E; [|reflexivity]. apply byte_eqb_eq in E. subst c. discriminate. }
-    cbn [validate_part okb forallb]. rewrite Esp. cbn [orb].
-    change (Byte.eqb c c_plus) with (is_plus c).
-    destruct (is_dot c) eqn:Edot.
-    + (* '.' *)
-      assert (Ep : is_plus c = false).
-      { apply byte_eqb_eq in Edot. subst c. reflexivity. }
-      rewrite Ep.
-      assert (Eok : charok dfn c = true).
-      { unfold charok. change (Byte.eqb c c_dot) with (is_dot c). rewrite Edot, orb_true_r. reflexivity. }
-      rewrite Eok. cbn [andb].
-      assert (A := IH (Some c)). cbn [after_plus] in A. rewrite Ep in A.
-      apply A; [discriminate | exact Hch'].
-    + destruct (is_plus c) eqn:Ep.
-      * (* '+' *)
-        assert (Eok : charok dfn c = true) by (unfold charok; change (Byte.eqb c c_plus) with (is_plus c); rewrite Ep; reflexivity).
-        rewrite Eok. cbn [andb].
-        destruct prev as [p|]; cbn [after_plus].
-        -- destruct tl as [|d tl'].
-           ++ cbn. rewrite andb_false_r. split; [discriminate | intros _; exact I].
-           ++ destruct (is_plus p) eqn:Epp; cbn [negb andb].
-              ** split; [discriminate | intros _; exact I].
-              ** assert (A := IH (Some c)). cbn [after_plus] in A. rewrite Ep in A.
-                 apply A; [intros _; discriminate | exact Hch'].
-        -- cbn. split; [discriminate | intros _; exact I].
-      * (* a scene *)
-        assert (Esc : scene_char c = true).
-        { unfold scene_char. change (Byte.eqb c c_plus) with (is_plus c).
-          change (Byte.eqb c c_dot) with (is_dot c). change (Byte.eqb c c_us) with (is_us c).
-          rewrite Ep, Edot, Hus. cbn.
-          change (white c) with (is_space c). rewrite Hsp. reflexivity. }
-        assert (Eok : charok dfn c = dfn c).
-        { unfold charok. change (Byte.eqb c c_plus) with (is_plus c).
-          change (Byte.eqb c c_dot) with (is_dot c). rewrite Ep, Edot, Esc. reflexivity. }
-        rewrite Eok. destruct (dfn c).
-        -- cbn [andb]. assert (A := IH (Some c)). cbn [after_plus] in A. rewrite Ep in A.
-           apply A; [discriminate | exact Hch'].
-        -- rewrite andb_false_r. cbn. split; [discriminate | intros _; exact I].
-Qed.
-
-(** * validate_parts / validate_storyline *)
-Lemma validate_parts_spec dfn : forall parts acc,
-  (forall p c, In p parts -> In c p -> is_space c = false) ->
-  let acts := filter nonempty (map strip_us parts) in
-  (wf_story dfn acts = true -> validate_parts dfn parts acc = Ok (rev acc ++ acts))
-  /\ (wf_story dfn acts = false -> is_err (validate_parts dfn parts acc)).
-Proof.
-  induction parts as [|p tl IH]; intros acc Hsp; cbn.
-  - rewrite app_nil_r. split; [reflexivity | discriminate].
-  - assert (Hp : forall c, In c p -> is_space c = false) by (intros c Hc; apply (Hsp p c); [left; reflexivity | exact Hc]).
-    rewrite (trim_space_id p Hp).
-    assert (Hsp' : forall q c, In q tl -> In c q -> is_space c = false) by (intros q c Hq; apply Hsp; right; exact Hq).
-    destruct (strip_us p) as [|x part'] eqn:Epart.
-    + cbn. apply IH, Hsp'.
-    + cbn [nonempty filter wf_story forallb]. fold (wf_story dfn (filter nonempty (map strip_us tl))).
-      set (part := x :: part') in *.
-      assert (Hpart : forall c, In c part -> is_space c = false /\ is_us c = false).
-      { intros c Hc. rewrite <- Epart in Hc. unfold strip_us in Hc. apply filter_In in Hc.
-        destruct Hc as [Hc Hu]. split; [apply Hp, Hc | destruct (is_us c); [discriminate | reflexivity]]. }
-      destruct (validate_part_spec dfn (N.pos (Pos.of_succ_nat (List.length acc))) part None) as [Vok Verr];
-        [intros _; discriminate | exact Hpart |].
-      cbn [after_plus] in Vok, Verr.
-      rewrite wf_act_okb. change (nonempty part) with true. cbn [andb].
-      destruct (okb true part && forallb (charok dfn) part) eqn:B.
-      * rewrite (Vok eq_refl). cbn [andb].
-        destruct (IH (part :: acc) Hsp') as [I1 I2]. split.
-        -- intros H. etransitivity; [exact (I1 H)|]. cbn [rev]. rewrite <- app_assoc. reflexivity.
-        -- exact I2.
-      * cbn [andb]. split; [discriminate|]. intros _.
-        specialize (Verr eq_refl).
-        destruct (validate_part dfn (N.pos (Pos.of_succ_nat (List.length acc))) None part); try contradiction. exact I.
-Qed.
-
-Lemma text_parts_no_space text : no_ctl text ->
-  forall p c, In p (split_on is_sp text) -> In c p -> is_space c = false.
-Proof.
-  intros Hd p c Hp Hc. destruct (split_on_in text p c Hp Hc) as [Hin Hsp].
-  destruct (is_space c) eqn:E; [|reflexivity].
-  rewrite (Hd c Hin E) in Hsp. discriminate.
-Qed.
-
-Theorem validate_storyline_spec dfn text : no_ctl text ->
-  (wf_story dfn (acts_of text) = true -> validate_storyline dfn text = Ok (acts_of text))
-  /\ (wf_story dfn (acts_of text) = false -> is_err (validate_storyline dfn text)).
-Proof.
-  intros Hd. rewrite acts_of_split. unfold validate_storyline.
-  exact (validate_parts_spec dfn (split_on is_sp text) [] (text_parts_no_space text Hd)).
-Qed.
-
-(** * wf_story and shapes *)
-Lemma wf_story_Forall dfn l : wf_story dfn l = true <-> Forall (fun a => wf_act dfn a = true) l.
-Proof. unfold wf_story. rewrite forallb_forall, Forall_forall. reflexivity. Qed.
-
-Lemma wf_story_shaped dfn l : wf_story dfn l = true -> Forall shaped l.
-Proof.
-  rewrite wf_story_Forall. apply Forall_impl. intros a. apply wf_act_shaped.
-Qed.
-
-Lemma wf_act_chars dfn a : wf_act dfn a = true -> forall c, In c a -> charok dfn c = true.
-Proof.
-  rewrite wf_act_okb, !andb_true_iff. intros [_ H]. rewrite forallb_forall in H. exact H.
-Qed.
-
-Lemma charok_plus dfn : charok dfn b_plus = true. Proof. reflexivity. Qed.
-Lemma charok_dot dfn : charok dfn b_dot = true. Proof. reflexivity. Qed.
-
-Lemma shaped_chars_wf dfn a : shaped a -> (forall c, In c a -> charok dfn c = true) -> wf_act dfn a = true.
-Proof.
-  intros Hs Hc. rewrite wf_act_okb, (shaped_okb a Hs).
-  destruct (shaped_head a Hs) as (c & tl & -> & _). cbn [nonempty andb].
-  apply forallb_forall. exact Hc.
-Qed.
-
-(** * The `storyline` clause *)
-Theorem do_storyline_spec dfn cur text :
-  no_ctl text -> wf_story dfn cur = true ->
-  (wf_story dfn (acts_of text) = true ->
-     exists new, do_storyline dfn cur text = Ok new
-                 /\ wf_story dfn new = true
-                 /\ map columns new = union_story (map columns cur) (clause_columns text))
-  /\ (wf_story dfn (acts_of text) = false -> is_err (do_storyline dfn cur text)).
-Proof.
-  intros Hd Hcur. destruct (validate_storyline_spec dfn text Hd) as [Vok Verr]. unfold do_storyline. split.
-  - intros Hw. rewrite (Vok Hw). cbn [obind].
-    destruct (combine_storylines_spec cur (acts_of text) (wf_story_shaped dfn cur Hcur) (wf_story_shaped dfn _ Hw))
-      as (r & Er & Cr & Sr & Fr).
-    exists r. split; [exact Er|]. split; [|exact Cr].
-    apply wf_story_Forall. rewrite Forall_forall. intros a Ha.
-    apply shaped_chars_wf; [rewrite Forall_forall in Sr; apply Sr, Ha|].
-    intros c Hc. destruct (Fr a c Ha Hc) as [(a1 & Ha1 & Hc1) | [(a2 & Ha2 & Hc2) | [-> | ->]]].
-    + apply wf_story_Forall in Hcur. rewrite Forall_forall in Hcur. exact (wf_act_chars dfn a1 (Hcur a1 Ha1) c Hc1).
-    + apply wf_story_Forall in Hw. rewrite Forall_forall in Hw. exact (wf_act_chars dfn a2 (Hw a2 Ha2) c Hc2).
-    + apply charok_plus.
-    + apply charok_dot.
-  - intros Hw. specialize (Verr Hw). destruct (validate_storyline dfn text); try contradiction. exact I.
-Qed.
-
-(** * The `edit` clause *)
-Lemma join_print l : join_sp l = print_story l.
-Proof.
-  induction l as [|a tl IH]; [reflexivity|].
-  destruct tl as [|b tl]; [cbn; rewrite app_nil_r; reflexivity|].
-  change (join_sp (a :: b :: tl)) with (a ++ b_sp :: join_sp (b :: tl)). rewrite IH. reflexivity.
-Qed.
-
-Theorem do_edit_spec dfn cur f :
-  no_ctl (f (print_story cur)) ->
-  let new := acts_of (f (print_story cur)) in
-  (wf_story dfn new = true -> do_edit dfn cur f = Ok new)
-  /\ (wf_story dfn new = false -> is_err (do_edit dfn cur f)).
-Proof.
-  intros Hd. unfold do_edit. rewrite join_print. exact (validate_storyline_spec dfn _ Hd).
-Qed.
-
-(** The printed form of a well-formed storyline has no white space but ' '. *)
-Lemma charok_not_ctl dfn c : charok dfn c = true -> is_space c = true -> c = b_sp.
-Proof.
-  unfold charok, scene_char. intros H Hs. change (white c) with (is_space c) in H. rewrite Hs in H.
-  rewrite !orb_true_r in H. cbn in H. rewrite orb_false_r in H.
-  apply orb_true_iff in H. destruct H as [H | H]; apply byte_eqb_eq in H; subst c; discriminate.
-Qed.
-
-Lemma print_story_no_ctl dfn l : wf_story dfn l = true -> no_ctl (print_story l).
-Proof.
-  intros Hw c Hc Hs. apply wf_story_Forall in Hw. rewrite Forall_forall in Hw.
-  destruct l as [|a tl]; [destruct Hc|]. cbn in Hc. apply in_app_iff in Hc. destruct Hc as [Hc | Hc].
-  - exact (charok_not_ctl dfn c (wf_act_chars dfn a (Hw a (or_introl eq_refl)) c Hc) Hs).
-  - apply in_flat_map in Hc. destruct Hc as (x & Hx & [<- | Hc]); [reflexivity|].
-    exact (charok_not_ctl dfn c (wf_act_chars dfn x (Hw x (or_intror Hx)) c Hc) Hs).
-Qed.
-
-(** * Whole scripts *)
-
-(** Domain of a script: clause texts without control white space; edit
-    substitutions that do not introduce any. *)
-Definition cmd_dom (c : cmd) : Prop :=
-  match c with
-  | CStoryline t => no_ctl t
-  | CEdit f => forall s, no_ctl s -> no_ctl (f s)
-  | _ => True
-  end.
-
-Lemma lookup_upd sp c f c' :
-  lookup (upd_spec sp c f) c' =
-  if Byte.eqb c c' then Some (f (match lookup sp c with Some s => s | None => empty_spec end))
-  else lookup sp c'.
-Proof.
-  induction sp as [|[k v] tl IH]; cbn.
-  - destruct (Byte.eqb c c'); reflexivity.
-  - destruct (Byte.eqb k c) eqn:E; cbn.
-    + apply byte_eqb_eq in E. subst k. destruct (Byte.eqb c c'); reflexivity.
-    + destruct (Byte.eqb k c') eqn:E'.
-      * apply byte_eqb_eq in E'. subst k. apply eqb_false in E.
-        assert (Byte.eqb c c' = false) as -> by (apply eqb_false; congruence). reflexivity.
-      * exact IH.
-Qed.
-
-Lemma defined_upd_mono sp c f c' : defined sp c' = true -> defined (upd_spec sp c f) c' = true.
-Proof.
-  unfold defined. rewrite lookup_upd. destruct (Byte.eqb c c'); [reflexivity | auto].
-Qed.
-
-Lemma wf_act_mono (d1 d2 : byte -> bool) a :
-  (forall c, d1 c = true -> d2 c = true) -> wf_act d1 a = true -> wf_act d2 a = true.
-Proof.
-  intros Hm. rewrite !wf_act_okb, !andb_true_iff. intros [H1 H2]. split; [exact H1|].
-  rewrite forallb_forall in *. intros c Hc. specialize (H2 c Hc). unfold charok in *.
-  destruct (Byte.eqb c c_plus || Byte.eqb c c_dot); [reflexivity|]. cbn in *.
-  apply andb_true_iff in H2. destruct H2 as [-> H2]. rewrite (Hm c H2). reflexivity.
-Qed.
-
-Lemma wf_story_mono (d1 d2 : byte -> bool) l :
-  (forall c, d1 c = true -> d2 c = true) -> wf_story d1 l = true -> wf_story d2 l = true.
-Proof.
-  intros Hm. rewrite !wf_story_Forall. apply Forall_impl. intros a. apply wf_act_mono, Hm.
-Qed.
-
-Definition st_wf (st : sstate) : Prop := wf_story (defined (st_specs st)) (st_story st) = true.
-
-(** One clause refines the denotation's step relation and keeps the state
-    well formed; it is refused exactly when the clause (resp. the edited
-    text) is not well formed, and it never panics or runs out of fuel. *)
-Theorem run_cmd_spec cs st c :
-  st_wf st -> cmd_dom c ->
-  match run_cmd cs st c with
-  | Ok st' => st_wf st' /\ story_step (defined (st_specs st)) (st_story st) c (st_story st')
-              /\ (forall x, defined (st_specs st) x = true -> defined (st_specs st') x = true)
-  | Err _ => match c with
-             | CStoryline t => wf_story (defined (st_specs st)) (acts_of t) = false
-             | CEdit f => wf_story (defined (st_specs st)) (acts_of (f (print_story (st_story st)))) = false
-             | CEntails _ (TActor a) _ => existsb (fun e => bytes_eqb (fst e) a) cs = false
-             | _ => False
-             end
-  | _ => False
-  end.
-Proof.
-  intros Hwf Hdom. destruct c as [ch t acts | ch m | ch m | text | f]; cbn [run_cmd].
-  - destruct t as [a | r]; cbn [select_actors].
-    + destruct (existsb (fun e => bytes_eqb (fst e) a) cs) eqn:E; [|reflexivity].
-      cbn. repeat split; [|constructor|intros x; apply defined_upd_mono].
-      unfold st_wf in *. cbn. eapply wf_story_mono; [|exact Hwf]. intros x. apply defined_upd_mono.
-    + destruct (map fst (filter (fun e => bytes_eqb (snd e) r) cs)) as [|a l].
-      * repeat split; [exact Hwf | constructor | auto].
-      * repeat split; [|constructor|intros x; apply defined_upd_mono].
-        unfold st_wf in *. cbn. eapply wf_story_mono; [|exact Hwf]. intros x. apply defined_upd_mono.
-  - repeat split; [|constructor|intros x; apply defined_upd_mono].
-    unfold st_wf in *. cbn. eapply wf_story_mono; [|exact Hwf]. intros x. apply defined_upd_mono.
-  - repeat split; [|constructor|intros x; apply defined_upd_mono].
-    unfold st_wf in *. cbn. eapply wf_story_mono; [|exact Hwf]. intros x. apply defined_upd_mono.
-  - cbn in Hdom. destruct (do_storyline_spec (defined (st_specs st)) (st_story st) text Hdom Hwf) as [Sok Serr].
-    destruct (wf_story (defined (st_specs st)) (acts_of text)) eqn:W.
-    + destruct (Sok eq_refl) as (new & -> & Wn & Cn). cbn. repeat split; [exact Wn | | auto].
-      apply SS_clause; assumption.
-    + specialize (Serr eq_refl). destruct (do_storyline _ _ _); cbn; try contradiction. reflexivity.
-  - cbn in Hdom.
-    assert (Hd : no_ctl (f (print_story (st_story st)))) by (apply Hdom; eapply print_story_no_ctl; exact Hwf).
-    destruct (do_edit_spec (defined (st_specs st)) (st_story st) f Hd) as [Eok Eerr].
-    destruct (wf_story (defined (st_specs st)) (acts_of (f (print_story (st_story st))))) eqn:W.
-    + rewrite (Eok eq_refl). cbn. repeat split; [exact W | | auto].
-      apply SS_edit; [reflexivity | exact W].
-    + specialize (Eerr eq_refl). destruct (do_edit _ _ _); cbn; try contradiction. reflexivity.
-Qed.
-
-Lemma init_wf : st_wf init_state.
+Lemma harmless_not_sep c : harmless c = true -> is_sep c = false.
+Proof. destruct c; vm_compute; congruence. Qed.
+Lemma harmless_not_dollar c : harmless c = true -> Byte.eqb c x24 = false.
+Proof. destruct c; vm_compute; congruence. Qed.
+Lemma harmless_not_gt c : harmless c = true -> c <> x3e.
+Proof. destruct c; vm_compute; congruence. Qed.
+Lemma harmless_not_quote c : harmless c = true -> Byte.eqb c x27 = false.
+Proof. destruct c; vm_compute; congruence. Qed.
+Lemma name_char_not_eq c : is_name_char c = true -> Byte.eqb c x3d = false.
+Proof. destruct c; vm_compute; congruence. Qed.
+Lemma alpha_name_char c : is_alpha c = true -> is_name_char c = true.
+Proof. unfold is_name_char; intros ->; reflexivity. Qed.
+Lemma alpha_not_hash c : is_alpha c = true -> c <> x23.
+Proof. destruct c; vm_compute; congruence. Qed.
+Lemma eq_not_name_char : is_name_char x3d = false.
 Proof. reflexivity. Qed.
 
-(** The invariant over whole scripts, and: a script is never a panic or out
-    of fuel. *)
-Theorem run_script_inv cs : forall cmds st,
-  st_wf st -> Forall cmd_dom cmds ->
-  match run_script cs st cmds with
-  | Ok st' => st_wf st'
-  | Err _ => True
-  | _ => False
+Lemma is_name_chars n : is_name n = true -> forallb is_name_char n = true.
+Proof.
+  destruct n as [|c tl]; cbn; [discriminate|].
+  intros H; apply andb_true_iff in H as [H1 H2]. rewrite (alpha_name_char _ H1), H2; reflexivity.
+Qed.
+
+Lemma is_name_nonempty n : is_name n = true -> n <> [].
+Proof. destruct n; cbn; congruence. Qed.
+
+(** * strip_prefix / strip_suffix *)
+Lemma strip_prefix_app p r : strip_prefix p (p ++ r) = Some r.
+Proof. induction p as [|a p IH]; cbn; [reflexivity|]. rewrite byte_eqb_refl; exact IH. Qed.
+
+Lemma strip_prefix_some p : forall l r, strip_prefix p l = Some r -> l = p ++ r.
+Proof.
+  induction p as [|a p IH]; cbn; intros l r H; [congruence|].
+  destruct l as [|b l]; [discriminate|].
+  destruct (Byte.eqb a b) eqn:E; [|discriminate].
+  apply byte_eqb_eq in E; subst b. f_equal; auto.
+Qed.
+
+Lemma strip_suffix_app s a : strip_suffix s (a ++ s) = Some a.
+Proof. unfold strip_suffix. rewrite rev_app_distr, strip_prefix_app; cbn. rewrite rev_involutive; reflexivity. Qed.
+
+(** * Structured `with` clauses *)
+
+(** One assignment of a `with` clause and how it is separated from the one
+    before it: a blank, or a semicolon and a blank (what the multi-actor
+    expansion writes after i=<k>). *)
+Record witem := { w_semi : bool; w_name : bytes; w_val : bytes }.
+
+Definition wf_item (i : witem) : Prop :=
+  is_name (w_name i) = true /\ forallb harmless (w_val i) = true.
+
+Definition render_item (i : witem) : bytes := w_name i ++ x3d :: w_val i.
+Fixpoint render_rest (l : list witem) : bytes :=
+  match l with
+  | [] => []
+  | i :: tl => (if w_semi i then bs "; " else bs " ") ++ render_item i ++ render_rest tl
   end.
+Definition render_with (l : list witem) : bytes :=
+  match l with
+  | [] => []
+  | i :: tl => render_item i ++ render_rest tl
+  end.
+
+Lemma item_no_sep i : wf_item i -> forallb (fun c => negb (is_sep c)) (render_item i) = true.
 Proof.
-  induction cmds as [|c tl IH]; intros st Hwf Hdom; cbn; [exact Hwf|].
-  inversion Hdom as [|? ? Hc Htl]; subst.
-  assert (H := run_cmd_spec cs st c Hwf Hc).
-  destruct (run_cmd cs st c) as [st' | e | |]; cbn; try contradiction; [|exact I].
-  apply IH; [apply H | exact Htl].
+  intros [Hn Hv]. unfold render_item. rewrite forallb_app. apply andb_true_iff; split.
+  - apply is_name_chars in Hn. rewrite forallb_forall in *. intros c Hc.
+    rewrite harmless_not_sep; auto using name_char_harmless.
+  - cbn. rewrite forallb_forall in *. intros c Hc. rewrite harmless_not_sep; auto.
 Qed.
 
-(** Clauses only (no edit): the storyline's columns are the union of the
-    clauses' columns, in clause order. *)
-Theorem run_script_clauses cs : forall cmds st st',
-  st_wf st -> Forall cmd_dom cmds -> no_edit cmds = true ->
-  run_script cs st cmds = Ok st' ->
-  map columns (st_story st') = den_story_from (map columns (st_story st)) cmds.
+Lemma item_nonempty i : wf_item i -> render_item i <> [].
+Proof. intros [Hn _]. unfold render_item. destruct (w_name i); cbn in *; congruence. Qed.
+
+Lemma fields_aux_skips sep s r : forallb sep s = true -> fields_aux sep [] (s ++ r) = fields_aux sep [] r.
 Proof.
-  induction cmds as [|c tl IH]; intros st st' Hwf Hdom Hne Hrun; cbn in Hrun.
-  - inversion Hrun; subst. reflexivity.
-  - inversion Hdom as [|? ? Hc Htl]; subst.
-    assert (H := run_cmd_spec cs st c Hwf Hc).
-    destruct (run_cmd cs st c) as [st1 | e | |] eqn:E; cbn in Hrun; try discriminate.
-    destruct H as (Hwf1 & Hstep & _).
-    destruct c as [ch t acts | ch m | ch m | text | f]; cbn in Hne; try discriminate;
-      cbn [den_story_from]; rewrite (IH st1 st' Hwf1 Htl Hne Hrun); inversion Hstep; subst; try reflexivity.
-    match goal with H : map columns _ = union_story _ _ |- _ => rewrite H end. reflexivity.
+  induction s as [|c s IH]; cbn; intros H; [reflexivity|].
+  apply andb_true_iff in H as [H1 H2]. rewrite H1; auto.
 Qed.
 
-Lemma run_script_app cs : forall c1 c2 st,
-  run_script cs st (c1 ++ c2) = obind (run_script cs st c1) (fun st1 => run_script cs st1 c2).
+Lemma fields_aux_first sep w r :
+  w <> [] -> forallb (fun c => negb (sep c)) w = true ->
+  (r = [] \/ exists c r', r = c :: r' /\ sep c = true) ->
+  fields_aux sep [] (w ++ r) = w :: fields_aux sep [] r.
 Proof.
-  induction c1 as [|c tl IH]; intros c2 st; cbn; [reflexivity|].
-  destruct (run_cmd cs st c); cbn; auto.
+  intros Hne Hw [->|(c & r' & -> & Hc)].
+  - rewrite app_nil_r. rewrite fields_aux_end by assumption. reflexivity.
+  - rewrite fields_aux_sep by assumption. rewrite fields_aux_skip by assumption. reflexivity.
 Qed.
 
-(** With edits: the clauses after the last edit are united onto the
-    substituted text of what was printed before it. *)
-Theorem run_script_after_edit cs pre f post st st' :
-  st_wf st -> Forall cmd_dom (pre ++ CEdit f :: post) -> no_edit post = true ->
-  run_script cs st (pre ++ CEdit f :: post) = Ok st' ->
-  exists st0, run_script cs st pre = Ok st0
-    /\ wf_story (defined (st_specs st0)) (acts_of (f (print_story (st_story st0)))) = true
-    /\ map columns (st_story st') =
-       den_story_from (map columns (acts_of (f (print_story (st_story st0))))) post.
+Definition sep_bytes (i : witem) : bytes := if w_semi i then [x3b; x20] else [x20].
+
+Lemma render_rest_cons i l : render_rest (i :: l) = sep_bytes i ++ render_item i ++ render_rest l.
+Proof. cbn. unfold sep_bytes. destruct (w_semi i); reflexivity. Qed.
+
+Lemma render_rest_starts l : render_rest l = [] \/ exists c r', render_rest l = c :: r' /\ is_sep c = true.
 Proof.
-  intros Hwf Hdom Hne Hrun. rewrite run_script_app in Hrun.
-  apply Forall_app in Hdom. destruct Hdom as [Hpre Hpost].
-  inversion Hpost as [|? ? Hf Hpost']; subst.
-  assert (Hinv := run_script_inv cs pre st Hwf Hpre).
-  destruct (run_script cs st pre) as [st0 | | |] eqn:E0; cbn [obind] in Hrun; try discriminate.
-  exists st0. split; [reflexivity|].
-  change (run_script cs st0 (CEdit f :: post))
-    with (obind (run_cmd cs st0 (CEdit f)) (fun st1 => run_script cs st1 post)) in Hrun.
-  assert (H := run_cmd_spec cs st0 (CEdit f) Hinv Hf).
-  destruct (run_cmd cs st0 (CEdit f)) as [st1 | | |] eqn:E1; cbn [obind] in Hrun; try discriminate.
-  destruct H as (Hwf1 & Hstep & _). inversion Hstep; subst.
-  match goal with H : st_story st1 = _ |- _ => rewrite <- H end.
-  split; [assumption|].
-  exact (run_script_clauses cs post st1 st' Hwf1 Hpost' Hne Hrun).
+  destruct l as [|i l]; [left; reflexivity|right].
+  rewrite render_rest_cons. unfold sep_bytes. destruct (w_semi i); cbn; eauto.
 Qed.
 
-(** * Merging at the level of well-formed acts / storylines *)
-Theorem combine_acts_wf dfn a1 a2 :
-  wf_act dfn a1 = true -> wf_act dfn a2 = true ->
-  exists r, combine_acts a1 a2 = Ok r
-            /\ columns r = union_act (columns a1) (columns a2)
-            /\ wf_act dfn r = true.
+Lemma fields_render_rest l : Forall wf_item l ->
+  fields_aux is_sep [] (render_rest l) = map render_item l.
 Proof.
-  intros H1 H2.
-  destruct (combine_acts_spec a1 a2) as (r & Er & Cr & _ & Sr & Fr);
-    [right; eapply wf_act_shaped; eassumption | right; eapply wf_act_shaped; eassumption |].
-  exists r. repeat split; [exact Er | exact Cr |].
-  apply shaped_chars_wf; [apply Sr; left; eapply wf_act_shaped; eassumption|].
-  intros c Hc. destruct (Fr c Hc) as [H | [H | [-> | ->]]].
-  - exact (wf_act_chars dfn a1 H1 c H).
-  - exact (wf_act_chars dfn a2 H2 c H).
-  - apply charok_plus.
-  - apply charok_dot.
+  induction 1 as [|i l Hi Hl IH]; [reflexivity|].
+  rewrite render_rest_cons. rewrite fields_aux_skips by (unfold sep_bytes; destruct (w_semi i); reflexivity).
+  rewrite fields_aux_first; auto using item_nonempty, item_no_sep, render_rest_starts.
+  cbn [map]. f_equal. exact IH.
 Qed.
 
-Theorem combine_storylines_wf dfn l1 l2 :
-  wf_story dfn l1 = true -> wf_story dfn l2 = true ->
-  exists r, combine_storylines l1 l2 = Ok r
-            /\ map columns r = union_story (map columns l1) (map columns l2)
-            /\ wf_story dfn r = true.
+Lemma tokens_render_with l : Forall wf_item l -> tokens (render_with l) = map render_item l.
 Proof.
-  intros H1 H2.
-  destruct (combine_storylines_spec l1 l2 (wf_story_shaped dfn l1 H1) (wf_story_shaped dfn l2 H2))
-    as (r & Er & Cr & Sr & Fr).
-  exists r. repeat split; [exact Er | exact Cr |].
-  apply wf_story_Forall. rewrite Forall_forall. intros a Ha.
-  apply shaped_chars_wf; [rewrite Forall_forall in Sr; apply Sr, Ha|].
-  intros c Hc. destruct (Fr a c Ha Hc) as [(a1 & Ha1 & Hc1) | [(a2 & Ha2 & Hc2) | [-> | ->]]].
-  - apply wf_story_Forall in H1. rewrite Forall_forall in H1. exact (wf_act_chars dfn a1 (H1 a1 Ha1) c Hc1).
-  - apply wf_story_Forall in H2. rewrite Forall_forall in H2. exact (wf_act_chars dfn a2 (H2 a2 Ha2) c Hc2).
-  - apply charok_plus.
-  - apply charok_dot.
+  destruct l as [|i l]; [reflexivity|]. intros H; inversion H; subst.
+  unfold tokens, fields, render_with.
+  rewrite fields_aux_first; auto using item_nonempty, item_no_sep, render_rest_starts.
+  cbn [map]. f_equal. apply fields_render_rest; assumption.
 Qed.
 
-(** * A well-formed storyline can be printed and read again *)
-Lemma charok_plain dfn c : charok dfn c = true -> Byte.eqb c c_us = false /\ Byte.eqb c c_sp = false.
+(** * Assignments *)
+Lemma split_eq_aux_name n : forall acc v,
+  forallb is_name_char n = true ->
+  split_eq_aux acc (n ++ x3d :: v) = Some (rev acc ++ n, v).
 Proof.
-  unfold charok, scene_char. intros H. apply orb_true_iff in H. destruct H as [H | H].
-  - apply orb_true_iff in H. destruct H as [H | H]; apply byte_eqb_eq in H; subst c; split; reflexivity.
-  - apply andb_true_iff in H. destruct H as [H _]. apply negb_true_iff in H.
-    rewrite !orb_false_iff in H. destruct H as [[[_ _] Hu] Hw]. split; [exact Hu|].
-    destruct (Byte.eqb c c_sp) eqn:E; [|reflexivity]. apply byte_eqb_eq in E. subst c. discriminate.
+  induction n as [|c n IH]; cbn; intros acc v H.
+  - rewrite app_nil_r; reflexivity.
+  - apply andb_true_iff in H as [H1 H2]. rewrite (name_char_not_eq _ H1).
+    rewrite IH by exact H2. cbn. rewrite <- app_assoc; reflexivity.
 Qed.
 
-Lemma pieces_plain a : (forall c, In c a -> Byte.eqb c c_sp = false) ->
-  forall cur rest, pieces c_sp (a ++ rest) cur = pieces c_sp rest (rev a ++ cur).
+Lemma split_eq_item n v : forallb is_name_char n = true -> split_eq (n ++ x3d :: v) = Some (n, v).
+Proof. intros H; unfold split_eq; rewrite split_eq_aux_name by exact H; reflexivity. Qed.
+
+Lemma expand_literal st v : forallb harmless v = true -> expand_aux st None v = Some v.
 Proof.
-  induction a as [|x a IH]; intros Ha cur rest; [reflexivity|].
-  cbn [app pieces]. rewrite (Ha x (or_introl eq_refl)).
-  rewrite IH by (intros c Hc; apply Ha; right; exact Hc). cbn [rev]. rewrite <- app_assoc. reflexivity.
+  induction v as [|c v IH]; cbn; intros H; [reflexivity|].
+  apply andb_true_iff in H as [H1 H2].
+  rewrite (harmless_not_dollar _ H1), H1, (IH H2); reflexivity.
 Qed.
 
-Lemma filter_all {A} (f : A -> bool) l : (forall x, In x l -> f x = true) -> filter f l = l.
+Lemma exec_assign_item st i : wf_item i ->
+  exec_assign st (render_item i) = Some (set_var (w_name i) (w_val i) st).
 Proof.
-  induction l as [|x l IH]; intros H; [reflexivity|]. cbn. rewrite (H x (or_introl eq_refl)).
-  rewrite IH; [reflexivity | intros y Hy; apply H; right; exact Hy].
+  intros [Hn Hv]. unfold exec_assign, render_item.
+  rewrite split_eq_item by (apply is_name_chars; exact Hn).
+  rewrite Hn. unfold expand. rewrite expand_literal by exact Hv. reflexivity.
 Qed.
 
-Lemma acts_of_print dfn l : wf_story dfn l = true -> acts_of (print_story l) = l.
+Definition assign_all (st : sh_state) (l : list witem) : sh_state :=
+  fold_left (fun s i => set_var (w_name i) (w_val i) s) l st.
+
+Lemma exec_assigns_items l : Forall wf_item l -> forall st,
+  exec_assigns st (map render_item l) = Some (assign_all st l).
 Proof.
-  intros Hw. apply wf_story_Forall in Hw.
-  assert (Hf : filter (fun c => negb (Byte.eqb c c_us)) (print_story l) = print_story l).
-  { apply filter_all. intros c Hc.
-    destruct l as [|a tl]; [destruct Hc|]. cbn in Hc. rewrite Forall_forall in Hw.
-    apply in_app_iff in Hc. destruct Hc as [Hc | Hc].
-    - destruct (charok_plain dfn c (wf_act_chars dfn a (Hw a (or_introl eq_refl)) c Hc)) as [-> _]. reflexivity.
-    - apply in_flat_map in Hc. destruct Hc as (x & Hx & [<- | Hc]); [reflexivity|].
-      destruct (charok_plain dfn c (wf_act_chars dfn x (Hw x (or_intror Hx)) c Hc)) as [-> _]. reflexivity. }
-  unfold acts_of. rewrite Hf.
-  assert (Hne : forall a, wf_act dfn a = true -> nonempty a = true).
-  { intros a Ha. rewrite wf_act_okb, !andb_true_iff in Ha. apply Ha. }
-  assert (Hsp : forall a, wf_act dfn a = true -> forall c, In c a -> Byte.eqb c c_sp = false).
-  { intros a Ha c Hc. apply (charok_plain dfn c (wf_act_chars dfn a Ha c Hc)). }
-  destruct l as [|a tl]; [reflexivity|].
-  inversion Hw as [|? ? Ha Htl]; subst. cbn [print_story]. clear Hw Hf.
-  revert a Ha. induction tl as [|b tl IH]; intros a Ha.
-  - cbn [flat_map]. rewrite (pieces_plain a (Hsp a Ha) [] []). cbn [pieces]. rewrite app_nil_r, rev_involutive.
-    cbn [filter]. rewrite (Hne a Ha). reflexivity.
-  - inversion Htl as [|? ? Hb Htl']; subst.
-    cbn [flat_map]. rewrite (pieces_plain a (Hsp a Ha) []). cbn [app pieces].
-    change (Byte.eqb c_sp c_sp) with true. cbn iota. rewrite app_nil_r, rev_involutive.
-    cbn [filter]. rewrite (Hne a Ha). f_equal. apply (IH Htl' b Hb).
+  induction 1 as [|i l Hi Hl IH]; intros st; [reflexivity|].
+  cbn [map exec_assigns]. rewrite exec_assign_item by exact Hi. apply IH.
 Qed.
 
-Theorem print_reread dfn l : wf_story dfn l = true ->
-  validate_storyline dfn (print_story l) = Ok l.
+(** [assign_all] touches nothing but the variables. *)
+Lemma assign_all_frame l : forall st,
+  cwd (assign_all st l) = cwd st /\ allexport (assign_all st l) = allexport st /\
+  out (assign_all st l) = out st /\ err (assign_all st l) = err st.
 Proof.
-  intros Hw. destruct (validate_storyline_spec dfn (print_story l) (print_story_no_ctl dfn l Hw)) as [H _].
-  rewrite (acts_of_print dfn l Hw) in H. exact (H Hw).
+  induction l as [|i l IH]; intros st; [cbn; auto|].
+  change (assign_all st (i :: l)) with (assign_all (set_var (w_name i) (w_val i) st) l).
+  destruct (IH (set_var (w_name i) (w_val i) st)) as (A & B & C & D).
+  rewrite A, B, C, D. cbn. auto.
+Qed.
+
+(** The value the clause gives to [n]: that of its last assignment to [n]. *)
+Fixpoint last_assigned (n : bytes) (l : list witem) : option bytes :=
+  match l with
+  | [] => None
+  | i :: tl =>
+      match last_assigned n tl with
+      | Some v => Some v
+      | None => if bytes_eqb n (w_name i) then Some (w_val i) else None
+      end
+  end.
+
+Lemma lookup_set_var_same n v st : lookup_var n (set_var n v st) = Some (v, allexport st || match lookup_var n st with Some (_, e) => e | None => false end).
+Proof. unfold lookup_var, set_var; cbn. rewrite bytes_eqb_refl. reflexivity. Qed.
+
+Lemma lookup_set_var_other n m v st : bytes_eqb n m = false -> lookup_var n (set_var m v st) = lookup_var n st.
+Proof. intros H. unfold lookup_var, set_var; cbn. rewrite H. reflexivity. Qed.
+
+Lemma lookup_assign_all n l : forall st, allexport st = true ->
+  lookup_var n (assign_all st l) =
+  match last_assigned n l with Some v => Some (v, true) | None => lookup_var n st end.
+Proof.
+  induction l as [|i l IH]; intros st Hx; [reflexivity|].
+  change (assign_all st (i :: l)) with (assign_all (set_var (w_name i) (w_val i) st) l).
+  cbn [last_assigned]. rewrite IH by exact Hx.
+  destruct (last_assigned n l); [reflexivity|].
+  destruct (bytes_eqb n (w_name i)) eqn:E.
+  - apply bytes_eqb_eq in E; subst n. rewrite lookup_set_var_same, Hx. reflexivity.
+  - apply lookup_set_var_other; exact E.
+Qed.
+
+(** * The lines of a prepared script *)
+Lemma span_name_aux_run n : forall acc c r,
+  forallb is_name_char n = true -> is_name_char c = false ->
+  span_name_aux acc (n ++ c :: r) = (rev acc ++ n, c :: r).
+Proof.
+  induction n as [|d n IH]; cbn; intros acc c r Hn Hc.
+  - rewrite Hc, app_nil_r; reflexivity.
+  - apply andb_true_iff in Hn as [H1 H2]. rewrite H1, IH by assumption. cbn. rewrite <- app_assoc; reflexivity.
+Qed.
+
+Lemma exec_line_comment st r : exec_line st (x23 :: r) = Some st.
+Proof. reflexivity. Qed.
+
+Lemma exec_line_setopts st :
+  exec_line st (bs "set -euao pipefail") =
+  Some {| cwd := cwd st; vars := vars st; allexport := true; out := out st; err := err st |}.
+Proof. reflexivity. Qed.
+
+Lemma exec_line_setx st : exec_line st (bs "set -x") = Some st.
+Proof. reflexivity. Qed.
+
+Lemma exec_line_cd st d : quotable d = true -> is_abs d = true ->
+  exec_line st (bs "cd '" ++ d ++ bs "'") = Some (do_cd st d).
+Proof.
+  intros Hq Ha. unfold exec_line.
+  change (bs "cd '" ++ d ++ bs "'") with (x63 :: x64 :: x20 :: x27 :: (d ++ bs "'")).
+  change (head_is x23 (x63 :: x64 :: x20 :: x27 :: d ++ bs "'")) with false.
+  change (snd (span_name (x63 :: x64 :: x20 :: x27 :: d ++ bs "'"))) with (x20 :: x27 :: d ++ bs "'").
+  change (head_is x3d (x20 :: x27 :: d ++ bs "'")) with false.
+  change (bytes_eqb (x63 :: x64 :: x20 :: x27 :: d ++ bs "'") (bs "set -euao pipefail")) with false.
+  change (bytes_eqb (x63 :: x64 :: x20 :: x27 :: d ++ bs "'") (bs "set -x")) with false.
+  change (strip_prefix (bs "cd '") (x63 :: x64 :: x20 :: x27 :: d ++ bs "'")) with (Some (d ++ bs "'")).
+  cbv beta iota. rewrite strip_suffix_app, Hq, Ha. reflexivity.
+Qed.
+
+Lemma exec_line_exec st f : plain_word f = true ->
+  exec_line st (bs "exec >>" ++ f ++ bs " 2>&1") =
+  Some {| cwd := cwd st; vars := vars st; allexport := allexport st;
+          out := TAppend (resolve_file st f); err := TAppend (resolve_file st f) |}.
+Proof.
+  intros Hf. unfold exec_line.
+  change (bs "exec >>" ++ f ++ bs " 2>&1") with (x65 :: x78 :: x65 :: x63 :: x20 :: x3e :: x3e :: (f ++ bs " 2>&1")).
+  set (l := x65 :: x78 :: x65 :: x63 :: x20 :: x3e :: x3e :: (f ++ bs " 2>&1")).
+  change (head_is x23 l) with false.
+  change (snd (span_name l)) with (x20 :: x3e :: x3e :: (f ++ bs " 2>&1")).
+  change (head_is x3d (x20 :: x3e :: x3e :: (f ++ bs " 2>&1"))) with false.
+  change (bytes_eqb l (bs "set -euao pipefail")) with false.
+  change (bytes_eqb l (bs "set -x")) with false.
+  change (strip_prefix (bs "cd '") l) with (@None bytes).
+  change (strip_prefix (bs "exec >>") l) with (Some (f ++ bs " 2>&1")).
+  cbv beta iota. rewrite strip_suffix_app, Hf. reflexivity.
+Qed.
+
+Lemma exec_line_date st f : plain_word f = true -> exec_line st (date_prefix ++ f) = Some st.
+Proof.
+  intros Hf. unfold exec_line.
+  change (head_is x23 (date_prefix ++ f)) with false.
+  change (snd (span_name (date_prefix ++ f))) with (x3d :: (skipn 3 date_prefix ++ f)).
+  change (head_is x3d (x3d :: (skipn 3 date_prefix ++ f))) with true.
+  cbv beta iota. rewrite strip_prefix_app, Hf. reflexivity.
+Qed.
+
+Lemma exec_line_echo st r : plain_text r = true -> exec_line st (bs "echo " ++ r) = Some st.
+Proof.
+  intros Hr. unfold exec_line.
+  change (bs "echo " ++ r) with (x65 :: x63 :: x68 :: x6f :: x20 :: r).
+  set (l := x65 :: x63 :: x68 :: x6f :: x20 :: r).
+  change (head_is x23 l) with false.
+  change (snd (span_name l)) with (x20 :: r).
+  change (head_is x3d (x20 :: r)) with false.
+  change (bytes_eqb l (bs "set -euao pipefail")) with false.
+  change (bytes_eqb l (bs "set -x")) with false.
+  change (strip_prefix (bs "cd '") l) with (@None bytes).
+  change (strip_prefix (bs "exec >>") l) with (@None bytes).
+  change (strip_prefix (bs "echo ") l) with (Some r).
+  cbv beta iota. rewrite Hr. reflexivity.
+Qed.
+
+(** A line that starts NAME= and contains no '>' is a list of assignments. *)
+Lemma exec_line_assign_line st n rest :
+  is_name n = true -> ~ In x3e (n ++ x3d :: rest) ->
+  exec_line st (n ++ x3d :: rest) = exec_assigns st (tokens (n ++ x3d :: rest)).
+Proof.
+  intros Hn Hgt. unfold exec_line.
+  assert (Hc : forallb is_name_char n = true) by (apply is_name_chars; exact Hn).
+  assert (H0 : head_is x23 (n ++ x3d :: rest) = false).
+  { destruct n as [|c n]; [discriminate|]. cbn in Hn |- *. apply andb_true_iff in Hn as [Ha _].
+    apply byte_eqb_neq. apply alpha_not_hash; exact Ha. }
+  assert (E : snd (span_name (n ++ x3d :: rest)) = x3d :: rest).
+  { unfold span_name. rewrite span_name_aux_run; [reflexivity|exact Hc|reflexivity]. }
+  assert (D : strip_prefix date_prefix (n ++ x3d :: rest) = None).
+  { destruct (strip_prefix date_prefix (n ++ x3d :: rest)) eqn:S; [|reflexivity].
+    apply strip_prefix_some in S. exfalso. apply Hgt. rewrite S.
+    apply in_or_app; left. vm_compute. tauto. }
+  rewrite H0, E. cbn [head_is]. rewrite byte_eqb_refl, D. reflexivity.
+Qed.
+
+Lemma var_value_set_other n m v st : bytes_eqb n m = false -> var_value n (set_var m v st) = var_value n st.
+Proof. intros H; unfold var_value; rewrite lookup_set_var_other by exact H; reflexivity. Qed.
+Lemma var_value_set_same n v st : var_value n (set_var n v st) = Some v.
+Proof. unfold var_value; rewrite lookup_set_var_same; reflexivity. Qed.
+
+Lemma exec_line_tmpdir st d : var_value (bs "PWD") st = Some d ->
+  exec_line st (bs "TMPDIR=$PWD HOME=$PWD/..") =
+  Some (set_var (bs "HOME") (d ++ bs "/..") (set_var (bs "TMPDIR") d st)).
+Proof.
+  intros Hp.
+  change (bs "TMPDIR=$PWD HOME=$PWD/..") with (bs "TMPDIR" ++ x3d :: bs "$PWD HOME=$PWD/..").
+  rewrite exec_line_assign_line; [|reflexivity|vm_compute; intuition discriminate].
+  change (tokens (bs "TMPDIR" ++ x3d :: bs "$PWD HOME=$PWD/..")) with [bs "TMPDIR=$PWD"; bs "HOME=$PWD/.."].
+  cbn [exec_assigns].
+  assert (E1 : exec_assign st (bs "TMPDIR=$PWD") = Some (set_var (bs "TMPDIR") d st)).
+  { unfold exec_assign. change (split_eq (bs "TMPDIR=$PWD")) with (Some (bs "TMPDIR", bs "$PWD")).
+    cbv beta iota. change (is_name (bs "TMPDIR")) with true. cbv beta iota.
+    unfold expand. change (bs "$PWD") with [x24; x50; x57; x44].
+    cbn [expand_aux Byte.eqb]. change (Byte.eqb x24 x24) with true. cbv beta iota.
+    change (is_name_char x50) with true. change (is_name_char x57) with true. change (is_name_char x44) with true.
+    cbv beta iota. cbn [flush]. change (is_name (rev [x44; x57; x50])) with true. cbv beta iota.
+    change (rev [x44; x57; x50]) with (bs "PWD"). rewrite Hp. reflexivity. }
+  rewrite E1.
+  set (st1 := set_var (bs "TMPDIR") d st).
+  assert (Hp1 : var_value (bs "PWD") st1 = Some d).
+  { unfold st1. rewrite var_value_set_other by reflexivity. exact Hp. }
+  unfold exec_assign. change (split_eq (bs "HOME=$PWD/..")) with (Some (bs "HOME", bs "$PWD/..")).
+  cbv beta iota. change (is_name (bs "HOME")) with true. cbv beta iota.
+  unfold expand. change (bs "$PWD/..") with [x24; x50; x57; x44; x2f; x2e; x2e].
+  cbn [expand_aux]. change (Byte.eqb x24 x24) with true. cbv beta iota.
+  change (is_name_char x50) with true. change (is_name_char x57) with true. change (is_name_char x44) with true.
+  change (is_name_char x2f) with false.
+  cbv beta iota. cbn [flush]. change (is_name (rev [x44; x57; x50])) with true. cbv beta iota.
+  change (rev [x44; x57; x50]) with (bs "PWD"). rewrite Hp1.
+  change (Byte.eqb x2f x24) with false. change (Byte.eqb x2e x24) with false.
+  change (harmless x2f) with true. change (harmless x2e) with true.
+  cbv beta iota. cbn [option_map]. reflexivity.
+Qed.
+
+(** * The state after the fixed part of the prefix *)
+Definition with_allexport (st : sh_state) : sh_state :=
+  {| cwd := cwd st; vars := vars st; allexport := true; out := out st; err := err st |}.
+Definition with_out (st : sh_state) (t : target) : sh_state :=
+  {| cwd := cwd st; vars := vars st; allexport := allexport st; out := t; err := t |}.
+
+Definition log_file (workDir name : bytes) : bytes := workDir ++ bs "/" ++ name ++ bs ".log".
+
+(** State after `#!`, `set -euao pipefail`, `cd`, `TMPDIR= HOME=`, the three
+    redirection lines (if any) and `set -x`. *)
+Definition st_fixed (caller : sh_state) (workDir name : bytes) (redirect : bool) : sh_state :=
+  let s3 := set_var (bs "HOME") (workDir ++ bs "/..")
+              (set_var (bs "TMPDIR") workDir (do_cd (with_allexport caller) workDir)) in
+  if redirect then with_out s3 (TAppend (log_file workDir name)) else s3.
+
+(** What the theorems ask of a work directory and of a script name.  The
+    directory goes between single quotes after `cd` (so: no single quote) and
+    unquoted after `echo` (so, when there is a redirection: only characters
+    the shell leaves alone, and blanks). *)
+Definition dir_ok (workDir : bytes) (redirect : bool) : Prop :=
+  is_abs workDir = true /\ quotable workDir = true /\ (redirect = true -> plain_text workDir = true).
+Definition name_ok (name : bytes) : Prop :=
+  plain_word name = true /\ forallb (fun c => negb (is_slash c)) name = true.
+
+Lemma plain_word_app a b : plain_word a = true -> forallb harmless b = true -> plain_word (a ++ b) = true.
+Proof.
+  destruct a as [|c a]; [discriminate|]. cbn. intros H Hb.
+  apply andb_true_iff in H as [H1 H2]. rewrite H1, forallb_app, H2, Hb. reflexivity.
+Qed.
+
+Lemma plain_word_text a : plain_word a = true -> plain_text a = true.
+Proof.
+  destruct a as [|c a]; [discriminate|]. unfold plain_word, plain_text. intros H.
+  rewrite forallb_forall in *. intros x Hx. rewrite (H x Hx). reflexivity.
+Qed.
+
+Lemma plain_text_app a b : plain_text a = true -> plain_text b = true -> plain_text (a ++ b) = true.
+Proof. unfold plain_text. intros; rewrite forallb_app; apply andb_true_iff; auto. Qed.
+
+Lemma name_not_abs name : name_ok name -> is_abs (name ++ bs ".log") = false.
+Proof.
+  intros [Hp Hs]. destruct name as [|c name]; [discriminate|]. cbn in *.
+  apply andb_true_iff in Hs as [Hs _]. apply negb_true_iff in Hs. exact Hs.
+Qed.
+
+Lemma exec_prefix_app a : forall st b,
+  exec_prefix st (a ++ b) = match exec_prefix st a with Some st' => exec_prefix st' b | None => None end.
+Proof.
+  induction a as [|l a IH]; intros st b; cbn; [reflexivity|].
+  destruct (exec_line st l); [apply IH|reflexivity].
+Qed.
+
+Lemma fixed_prefix_state caller shell workDir name redirect :
+  dir_ok workDir redirect -> (redirect = true -> name_ok name) ->
+  exec_prefix caller (prefix_lines shell workDir name [] redirect) = Some (st_fixed caller workDir name redirect).
+Proof.
+  intros (Ha & Hq & Hp) Hn. unfold prefix_lines.
+  cbn [app exec_prefix]. change (bs "#!" ++ shell) with (x23 :: x21 :: shell).
+  rewrite exec_line_comment, exec_line_setopts.
+  change {| cwd := cwd caller; vars := vars caller; allexport := true; out := out caller; err := err caller |}
+    with (with_allexport caller).
+  rewrite exec_line_cd by assumption.
+  rewrite (exec_line_tmpdir _ workDir) by (unfold do_cd; apply var_value_set_same).
+  unfold st_fixed.
+  set (s3 := set_var (bs "HOME") (workDir ++ bs "/..") (set_var (bs "TMPDIR") workDir (do_cd (with_allexport caller) workDir))).
+  destruct redirect.
+  - specialize (Hp eq_refl). destruct (Hn eq_refl) as [Hw Hs].
+    cbn [app exec_prefix].
+    change (bs "TZ=UTC date +%Y-%m-%dT%H:%M:%SZ >>" ++ name ++ bs ".log") with (date_prefix ++ (name ++ bs ".log")).
+    rewrite exec_line_date by (apply plain_word_app; [exact Hw|reflexivity]).
+    change (bs "echo output redirected to " ++ workDir ++ bs "/" ++ name ++ bs ".log")
+      with (bs "echo " ++ (bs "output redirected to " ++ workDir ++ bs "/" ++ name ++ bs ".log")).
+    rewrite exec_line_echo.
+    2:{ apply plain_text_app; [reflexivity|]. apply plain_text_app; [exact Hp|].
+        apply plain_text_app; [reflexivity|]. apply plain_text_app; [apply plain_word_text; exact Hw|reflexivity]. }
+    replace (bs "exec >>" ++ name ++ bs ".log 2>&1") with (bs "exec >>" ++ (name ++ bs ".log") ++ bs " 2>&1")
+      by (rewrite <- app_assoc; reflexivity).
+    rewrite exec_line_exec by (apply plain_word_app; [exact Hw|reflexivity]).
+    rewrite exec_line_setx. f_equal. unfold with_out, resolve_file.
+    rewrite name_not_abs by (split; assumption). reflexivity.
+  - cbn [app exec_prefix]. rewrite exec_line_setx. reflexivity.
+Qed.
+
+(** * The whole prefix, with the `with` clause *)
+Lemma render_with_nil_iff ws : Forall wf_item ws -> (render_with ws = [] <-> ws = []).
+Proof.
+  intros H; split; [|intros ->; reflexivity].
+  destruct ws as [|i l]; [reflexivity|]. inversion H; subst.
+  cbn. intros E. apply app_eq_nil in E as [E _]. exfalso. eapply item_nonempty; eauto.
+Qed.
+
+Lemma render_rest_chars l : Forall wf_item l -> forall c, In c (render_rest l) -> harmless c = true \/ is_sep c = true.
+Proof.
+  induction 1 as [|i l Hi Hl IH]; intros c Hc; [destruct Hc|].
+  rewrite render_rest_cons in Hc. apply in_app_or in Hc as [Hc|Hc].
+  - right. unfold sep_bytes in Hc. destruct (w_semi i); cbn in Hc; intuition (subst; reflexivity).
+  - apply in_app_or in Hc as [Hc|Hc]; [|auto].
+    left. destruct Hi as [Hn Hv]. unfold render_item in Hc. apply in_app_or in Hc as [Hc|Hc].
+    + apply name_char_harmless. apply is_name_chars in Hn. rewrite forallb_forall in Hn; auto.
+    + destruct Hc as [<-|Hc]; [reflexivity|]. rewrite forallb_forall in Hv; auto.
+Qed.
+
+Lemma exec_with_line st i l : Forall wf_item (i :: l) ->
+  exec_line st (render_with (i :: l)) = Some (assign_all st (i :: l)).
+Proof.
+  intros H. pose proof H as H'. inversion H as [|? ? Hi Hl]; subst.
+  assert (E : render_with (i :: l) = w_name i ++ x3d :: (w_val i ++ render_rest l)).
+  { cbn. unfold render_item. rewrite <- app_assoc. reflexivity. }
+  rewrite E. rewrite exec_line_assign_line.
+  - rewrite <- E. rewrite tokens_render_with by exact H'. apply exec_assigns_items; exact H'.
+  - apply Hi.
+  - rewrite <- E. intros Hin.
+    assert (X : harmless x3e = true \/ is_sep x3e = true).
+    { cbn in Hin. apply in_app_or in Hin as [Hin|Hin].
+      + left. destruct Hi as [Hn Hv]. unfold render_item in Hin. apply in_app_or in Hin as [Hin|Hin].
+        * apply name_char_harmless. apply is_name_chars in Hn. rewrite forallb_forall in Hn; auto.
+        * destruct Hin as [Q|Hin]; [discriminate Q|]. rewrite forallb_forall in Hv; auto.
+      + eapply render_rest_chars; eauto. }
+    destruct X as [X|X]; discriminate X.
+Qed.
+
+Theorem state_at_command caller shell workDir name ws redirect :
+  dir_ok workDir redirect -> (redirect = true -> name_ok name) -> Forall wf_item ws ->
+  exec_prefix caller (prefix_lines shell workDir name (render_with ws) redirect)
+  = Some (assign_all (st_fixed caller workDir name redirect) ws).
+Proof.
+  intros Hd Hn Hw.
+  assert (E : prefix_lines shell workDir name (render_with ws) redirect =
+              prefix_lines shell workDir name [] redirect ++ match ws with [] => [] | _ => [render_with ws] end).
+  { assert (D : match render_with ws with [] => [] | _ => [render_with ws] end
+                 = match ws with [] => @nil bytes | _ => [render_with ws] end).
+    { destruct ws as [|i l]; [reflexivity|].
+      destruct (render_with (i :: l)) eqn:R; [|reflexivity].
+      apply render_with_nil_iff in R; [discriminate|exact Hw]. }
+    unfold prefix_lines. rewrite D. rewrite <- !app_assoc. reflexivity. }
+  rewrite E, exec_prefix_app, fixed_prefix_state by assumption.
+  destruct ws as [|i l]; [reflexivity|].
+  cbn [exec_prefix]. rewrite exec_with_line by exact Hw. reflexivity.
+Qed.
+
+(** Components of the state at the command. *)
+Lemma st_fixed_frame caller workDir name redirect :
+  let st := st_fixed caller workDir name redirect in
+  cwd st = workDir /\ allexport st = true /\
+  out st = (if redirect then TAppend (log_file workDir name) else out caller) /\
+  err st = (if redirect then TAppend (log_file workDir name) else err caller).
+Proof. unfold st_fixed; destruct redirect; cbn; auto. Qed.
+
+Lemma st_fixed_lookup caller workDir name redirect n :
+  lookup_var n (st_fixed caller workDir name redirect) =
+  if bytes_eqb n (bs "HOME") then Some (workDir ++ bs "/..", true)
+  else if bytes_eqb n (bs "TMPDIR") then Some (workDir, true)
+  else if bytes_eqb n (bs "PWD") then Some (workDir, true)
+  else if bytes_eqb n (bs "OLDPWD")
+       then Some (match var_value (bs "PWD") caller with Some p => p | None => cwd caller end, true)
+  else lookup_var n caller.
+Proof.
+  assert (X : forall st t, lookup_var n (with_out st t) = lookup_var n st) by reflexivity.
+  unfold st_fixed. destruct redirect; rewrite ?X; unfold lookup_var, set_var, do_cd, with_allexport; cbn;
+    destruct (bytes_eqb n (bs "HOME")); try reflexivity;
+    destruct (bytes_eqb n (bs "TMPDIR")); try reflexivity;
+    destruct (bytes_eqb n (bs "PWD")); try reflexivity;
+    destruct (bytes_eqb n (bs "OLDPWD")); reflexivity.
+Qed.
+
+(** * Decimal strings *)
+Lemma uint_round d : uint_of_bytes (bytes_of_uint d) = Some d.
+Proof. induction d; cbn; rewrite ?IHd; reflexivity. Qed.
+
+Lemma atoi_itoa k : atoi (itoa k) = Some k.
+Proof. unfold atoi, itoa. rewrite uint_round. cbn. rewrite DecimalN.Unsigned.of_to. reflexivity. Qed.
+
+Lemma itoa_inj a b : itoa a = itoa b -> a = b.
+Proof. intros H. apply (f_equal atoi) in H. rewrite !atoi_itoa in H. congruence. Qed.
+
+Lemma uint_digits d : forallb harmless (bytes_of_uint d) = true.
+Proof. induction d; cbn; rewrite ?IHd; reflexivity. Qed.
+
+Lemma itoa_harmless k : forallb harmless (itoa k) = true.
+Proof. apply uint_digits. Qed.
+
+(** * Multi-actor definitions *)
+Definition i_item (k : N) : witem := {| w_semi := false; w_name := bs "i"; w_val := itoa k |}.
+Definition with_i (k : N) (ws : list witem) : list witem :=
+  i_item k :: match ws with
+              | [] => []
+              | j :: tl => {| w_semi := true; w_name := w_name j; w_val := w_val j |} :: tl
+              end.
+
+Lemma multi_env_render k ws : Forall wf_item ws -> multi_env k (render_with ws) = render_with (with_i k ws).
+Proof.
+  intros H. destruct ws as [|j tl].
+  - cbn. rewrite app_nil_r. reflexivity.
+  - unfold multi_env. destruct (render_with (j :: tl)) eqn:R.
+    + apply render_with_nil_iff in R; [discriminate|exact H].
+    + rewrite <- R. cbn. unfold render_item at 1. cbn. rewrite <- !app_assoc. reflexivity.
+Qed.
+
+Lemma with_i_wf k ws : Forall wf_item ws -> Forall wf_item (with_i k ws).
+Proof.
+  intros H. unfold with_i. constructor.
+  - split; [reflexivity|apply itoa_harmless].
+  - destruct H as [|j tl Hj Htl]; constructor; auto.
+Qed.
+
+Lemma last_assigned_with_i n k ws :
+  last_assigned n (with_i k ws) =
+  match last_assigned n ws with
+  | Some v => Some v
+  | None => if bytes_eqb n (bs "i") then Some (itoa k) else None
+  end.
+Proof. unfold with_i. destruct ws as [|j tl]; cbn; reflexivity. Qed.
+
+(** * HOME lies inside the run directory *)
+Definition actor_name_ok (a : bytes) : Prop :=
+  a <> [] /\ forallb (fun c => negb (is_slash c)) a = true /\ regular a = true.
+(** The run directory as filepath.Abs returns it: absolute, and clean. *)
+Definition run_dir_ok (runDir : bytes) : Prop :=
+  is_abs runDir = true /\ forallb regular (fields is_slash runDir) = true.
+
+Lemma is_abs_app a b : is_abs a = true -> is_abs (a ++ b) = true.
+Proof. destruct a; cbn; [discriminate|auto]. Qed.
+
+Lemma path_abs_is_abs b : p_abs (path_of_bytes b) = is_abs b.
+Proof. destruct b; reflexivity. Qed.
+
+Lemma path_of_bytes_eq b : path_of_bytes b = {| p_abs := is_abs b; p_comps := fields is_slash b |}.
+Proof. destruct b; reflexivity. Qed.
+
+Lemma home_inside runDir a : run_dir_ok runDir -> actor_name_ok a ->
+  let home := work_dir runDir a ++ bs "/.." in
+  clean (path_of_bytes home) = path_of_bytes (runDir ++ bs "/artifacts") /\
+  strictly_inside (path_of_bytes runDir) (clean (path_of_bytes home)) = true.
+Proof.
+  intros [Ha Hr] (Hne & Hs & Hreg). cbv zeta.
+  set (cs := fields is_slash runDir) in *.
+  assert (F1 : fields is_slash (work_dir runDir a ++ bs "/..") = cs ++ [bs "artifacts"; a; dotdot]).
+  { unfold work_dir.
+    replace ((runDir ++ bs "/artifacts/" ++ a) ++ bs "/..")
+      with (runDir ++ x2f :: (bs "artifacts" ++ x2f :: (a ++ x2f :: dotdot))).
+    2:{ rewrite <- !app_assoc. reflexivity. }
+    rewrite !fields_split by reflexivity.
+    rewrite (fields_one is_slash a) by assumption. reflexivity. }
+  assert (F2 : fields is_slash (runDir ++ bs "/artifacts") = cs ++ [bs "artifacts"]).
+  { change (bs "/artifacts") with (x2f :: bs "artifacts"). rewrite fields_split by reflexivity. reflexivity. }
+  assert (C : clean (path_of_bytes (work_dir runDir a ++ bs "/..")) = path_of_bytes (runDir ++ bs "/artifacts")).
+  { assert (A1 : is_abs (work_dir runDir a ++ bs "/..") = true)
+      by (apply is_abs_app; unfold work_dir; apply is_abs_app; exact Ha).
+    assert (A2 : is_abs (runDir ++ bs "/artifacts") = true) by (apply is_abs_app; exact Ha).
+    rewrite !path_of_bytes_eq. unfold clean. cbn [p_abs p_comps].
+    rewrite A1, A2, F1, F2. f_equal.
+    rewrite clean_aux_stack.
+    change (cs ++ [bs "artifacts"; a; dotdot]) with (cs ++ [bs "artifacts"] ++ [a; dotdot]).
+    rewrite app_assoc, clean_stack_app.
+    rewrite clean_stack_down_up by exact Hreg.
+    rewrite clean_stack_regular.
+    - rewrite app_nil_r, rev_involutive. reflexivity.
+    - rewrite forallb_app, Hr. reflexivity. }
+  split; [exact C|]. rewrite C.
+  rewrite !path_of_bytes_eq. unfold strictly_inside, inside. cbn [p_abs p_comps].
+  rewrite Ha, (is_abs_app runDir _ Ha). fold cs. rewrite F2.
+  rewrite prefix_comps_app, app_length. cbn. apply Nat.ltb_lt. lia.
+Qed.
+
+(** * The prefix does not depend on who invokes the script *)
+Definition assigns (n : bytes) (ws : list witem) : Prop :=
+  (exists v, last_assigned n ws = Some v) \/ In n [bs "HOME"; bs "TMPDIR"; bs "PWD"].
+
+Theorem prefix_ignores_caller c1 c2 shell workDir name ws redirect :
+  dir_ok workDir redirect -> (redirect = true -> name_ok name) -> Forall wf_item ws ->
+  exists s1 s2,
+    exec_prefix c1 (prefix_lines shell workDir name (render_with ws) redirect) = Some s1 /\
+    exec_prefix c2 (prefix_lines shell workDir name (render_with ws) redirect) = Some s2 /\
+    cwd s1 = cwd s2 /\ allexport s1 = allexport s2 /\
+    (forall n, assigns n ws -> lookup_var n s1 = lookup_var n s2) /\
+    (redirect = true -> out s1 = out s2 /\ err s1 = err s2) /\
+    (redirect = false -> out s1 = out c1 /\ err s1 = err c1 /\ out s2 = out c2 /\ err s2 = err c2).
+Proof.
+  intros Hd Hn Hw.
+  exists (assign_all (st_fixed c1 workDir name redirect) ws), (assign_all (st_fixed c2 workDir name redirect) ws).
+  rewrite !state_at_command by assumption.
+  destruct (assign_all_frame ws (st_fixed c1 workDir name redirect)) as (A1 & B1 & C1 & D1).
+  destruct (assign_all_frame ws (st_fixed c2 workDir name redirect)) as (A2 & B2 & C2 & D2).
+  destruct (st_fixed_frame c1 workDir name redirect) as (E1 & F1 & G1 & H1).
+  destruct (st_fixed_frame c2 workDir name redirect) as (E2 & F2 & G2 & H2).
+  split; [reflexivity|]. split; [reflexivity|].
+  split; [congruence|]. split; [congruence|].
+  split.
+  { intros n Hn'. rewrite !lookup_assign_all by assumption.
+    destruct Hn' as [[v ->]|Hin]; [reflexivity|].
+    destruct (last_assigned n ws); [reflexivity|].
+    rewrite !st_fixed_lookup.
+    cbn in Hin. destruct Hin as [<-|[<-|[<-|[]]]]; reflexivity. }
+  split.
+  { intros ->. split; congruence. }
+  intros ->. repeat split; congruence.
+Qed.
+
+(** * Roles and casts *)
+Lemma add_actions_ok l : forall acc r, add_actions acc l = Ok r -> r = acc ++ l.
+Proof.
+  induction l as [|[n c] l IH]; cbn; intros acc r H.
+  - inversion H; rewrite app_nil_r; reflexivity.
+  - destruct (amem n acc); [discriminate|]. apply IH in H. rewrite <- app_assoc in H. exact H.
+Qed.
+
+(** A role that extends another has the parent's actions followed by its own,
+    and the parent's spotlight / cleanup unless it defines one. *)
+Lemma resolve_role_extends known d p r :
+  rd_extends d = Some p -> resolve_role known d = Ok r ->
+  exists pr, alookup p known = Some pr /\
+    r_actions r = r_actions pr ++ rd_actions d /\
+    r_spot r = or_else (rd_spot d) (r_spot pr) /\ r_clean r = or_else (rd_clean d) (r_clean pr).
+Proof.
+  unfold resolve_role. intros -> H.
+  destruct (amem (rd_name d) known); [discriminate|].
+  destruct (alookup p known) as [pr|]; [|discriminate]. cbn in H.
+  destruct (add_actions (r_actions pr) (rd_actions d)) eqn:A; try discriminate.
+  cbn in H. inversion H; subst; cbn. apply add_actions_ok in A. eauto.
+Qed.
+
+Definition multi_actor (base : bytes) (r : role) (env : bytes) (k : nat) : bytes * actor :=
+  (multi_name base (N.of_nat k),
+   {| a_name := multi_name base (N.of_nat k); a_role := r; a_env := multi_env (N.of_nat k) env;
+      a_index := Some (N.of_nat k) |}).
+
+Lemma add_multi_ok base r env ks : forall acc acc',
+  add_multi acc base r env ks = Ok acc' -> acc' = acc ++ map (multi_actor base r env) ks.
+Proof.
+  induction ks as [|k ks IH]; cbn; intros acc acc' H.
+  - inversion H; rewrite app_nil_r; reflexivity.
+  - destruct (amem (multi_name base (N.of_nat k)) acc); [discriminate|].
+    apply IH in H. rewrite <- app_assoc in H. exact H.
+Qed.
+
+(** How an actor relates to the line of the cast section it comes from. *)
+Definition from_def (roles : list (bytes * role)) (d : actor_def) (a : actor) : Prop :=
+  match ad_mul d with
+  | None =>
+      find_role roles false (ad_role d) = Some (a_role a) /\
+      a_name a = ad_name d /\ a_env a = ad_env d /\ a_index a = None
+  | Some n =>
+      find_role roles true (ad_role d) = Some (a_role a) /\
+      exists k, (k < n)%nat /\ a_name a = multi_name (ad_name d) (N.of_nat k) /\
+                a_env a = multi_env (N.of_nat k) (ad_env d) /\ a_index a = Some (N.of_nat k)
+  end.
+
+Lemma add_actor_def_ok roles acc d acc' :
+  add_actor_def roles acc d = Ok acc' ->
+  exists new, acc' = acc ++ new /\
+    (forall na, In na new -> fst na = a_name (snd na) /\ from_def roles d (snd na)) /\
+    match ad_mul d with
+    | None => List.length new = 1%nat
+    | Some n => map fst new = map (fun k => multi_name (ad_name d) (N.of_nat k)) (seq 0 n)
+    end.
+Proof.
+  unfold add_actor_def, from_def. intros H.
+  destruct (ad_mul d) as [n|] eqn:M.
+  - destruct (find_role roles true (ad_role d)) as [r|] eqn:F; [|discriminate].
+    apply add_multi_ok in H. eexists; split; [exact H|]. split.
+    + intros na Hin. apply in_map_iff in Hin as (k & <- & Hk). apply in_seq in Hk. cbn.
+      split; [reflexivity|]. split; [reflexivity|]. exists k. repeat split; try reflexivity. lia.
+    + rewrite map_map. reflexivity.
+  - destruct (find_role roles false (ad_role d)) as [r|] eqn:F; [|discriminate].
+    destruct (amem (ad_name d) acc); [discriminate|]. inversion H; subst.
+    eexists; split; [reflexivity|]. split; [|reflexivity].
+    intros na [<-|[]]. cbn. auto.
+Qed.
+
+Lemma expand_cast_ok roles ds : forall acc acc',
+  expand_cast roles acc ds = Ok acc' ->
+  exists new, acc' = acc ++ new /\
+    forall na, In na new -> fst na = a_name (snd na) /\ exists d, In d ds /\ from_def roles d (snd na).
+Proof.
+  induction ds as [|d ds IH]; cbn; intros acc acc' H.
+  - inversion H. exists []. rewrite app_nil_r. split; [reflexivity|]. intros ? [].
+  - destruct (add_actor_def roles acc d) as [acc1| | |] eqn:A; try discriminate. cbn in H.
+    apply add_actor_def_ok in A as (n1 & -> & H1 & _).
+    apply IH in H as (n2 & -> & H2).
+    exists (n1 ++ n2). rewrite app_assoc. split; [reflexivity|].
+    intros na Hin. apply in_app_or in Hin as [Hin|Hin].
+    + destruct (H1 na Hin) as [X Y]. split; [exact X|]. exists d. auto.
+    + destruct (H2 na Hin) as [X (d' & Hd' & Y)]. split; [exact X|]. exists d'. auto.
+Qed.
+
+(** Every actor of a cast comes from one line of the cast section: with the
+    line's role; for `name* play n role` as the k-th of n with k < n, named
+    name<k+1> and with i=<k> put in front of the environment. *)
+Theorem cast_actor_from_def rds ads actors :
+  cast_of rds ads = Ok actors ->
+  exists roles, resolve_roles [] rds = Ok roles /\
+  forall na, In na actors -> fst na = a_name (snd na) /\ exists d, In d ads /\ from_def roles d (snd na).
+Proof.
+  unfold cast_of. intros H.
+  destruct (resolve_roles [] rds) as [roles| | |] eqn:R; try discriminate. cbn in H.
+  exists roles. split; [reflexivity|].
+  apply expand_cast_ok in H as (new & -> & Hn). exact Hn.
+Qed.
+
+(** ... and every k < n is there (the expansion loses no actor). *)
+Lemma expand_cast_complete roles ds : forall acc acc' d,
+  expand_cast roles acc ds = Ok acc' -> In d ds ->
+  forall n k, ad_mul d = Some n -> (k < n)%nat ->
+  exists na, In na acc' /\ fst na = multi_name (ad_name d) (N.of_nat k) /\ from_def roles d (snd na).
+Proof.
+  induction ds as [|d0 ds IH]; cbn; intros acc acc' d H Hin n k Hm Hk; [destruct Hin|].
+  destruct (add_actor_def roles acc d0) as [acc1| | |] eqn:A; try discriminate. cbn in H.
+  destruct Hin as [->|Hin]; [|eapply IH; eauto].
+  apply add_actor_def_ok in A as (n1 & -> & H1 & H3). rewrite Hm in H3.
+  apply expand_cast_ok in H as (n2 & -> & _).
+  assert (Hi : In (multi_name (ad_name d) (N.of_nat k)) (map fst n1)).
+  { rewrite H3. apply in_map_iff. exists k. split; [reflexivity|]. apply in_seq. lia. }
+  apply in_map_iff in Hi as (na & E & Hna).
+  exists na. split; [apply in_or_app; left; apply in_or_app; right; exact Hna|].
+  split; [exact E|]. apply H1; exact Hna.
+Qed.
+
+(** * Every script of every actor *)
+
+(** The scripts prepareActionCommands creates for an actor carry that actor's
+    own directory and environment, whichever role the commands come from. *)
+Lemma script_prefix_eq shell runDir a s :
+  script_prefix shell runDir a s =
+  prefix_lines shell (work_dir runDir (a_name a)) (s_name s) (a_env a) (kind_redirect (s_kind s)).
+Proof. reflexivity. Qed.
+
+Lemma script_text_eq shell runDir a s :
+  script_text shell runDir a s =
+  render_lines (script_prefix shell runDir a s ++ [s_cmd s]).
+Proof. reflexivity. Qed.
+
+Definition actor_clause (a : actor) (ws : list witem) : list witem :=
+  match a_index a with Some k => with_i k ws | None => ws end.
+
+Lemma actor_env_render roles d a ws :
+  from_def roles d a -> Forall wf_item ws -> ad_env d = render_with ws ->
+  a_env a = render_with (actor_clause a ws) /\ Forall wf_item (actor_clause a ws).
+Proof.
+  unfold from_def, actor_clause. intros H Hw He.
+  destruct (ad_mul d).
+  - destruct H as (_ & k & _ & _ & E & ->). rewrite E, He. split; [apply multi_env_render; exact Hw|apply with_i_wf; exact Hw].
+  - destruct H as (_ & _ & E & ->). rewrite E, He. auto.
+Qed.
+
+(** * The headline statements *)
+Definition state_ok (caller st : sh_state) (workDir name : bytes) (ws : list witem) (redirect : bool) : Prop :=
+  cwd st = workDir /\ allexport st = true /\
+  (forall n v, last_assigned n ws = Some v -> lookup_var n st = Some (v, true)) /\
+  (last_assigned (bs "TMPDIR") ws = None -> lookup_var (bs "TMPDIR") st = Some (workDir, true)) /\
+  (last_assigned (bs "HOME") ws = None -> lookup_var (bs "HOME") st = Some (workDir ++ bs "/..", true)) /\
+  (forall n, last_assigned n ws = None -> ~ In n [bs "HOME"; bs "TMPDIR"; bs "PWD"; bs "OLDPWD"] ->
+             lookup_var n st = lookup_var n caller) /\
+  out st = (if redirect then TAppend (log_file workDir name) else out caller) /\
+  err st = (if redirect then TAppend (log_file workDir name) else err caller).
+
+Theorem command_state caller shell workDir name ws redirect :
+  dir_ok workDir redirect -> (redirect = true -> name_ok name) -> Forall wf_item ws ->
+  exists st,
+    exec_prefix caller (prefix_lines shell workDir name (render_with ws) redirect) = Some st /\
+    state_ok caller st workDir name ws redirect.
+Proof.
+  intros Hd Hn Hw. eexists. split; [apply state_at_command; assumption|].
+  destruct (assign_all_frame ws (st_fixed caller workDir name redirect)) as (A & B & C & D).
+  destruct (st_fixed_frame caller workDir name redirect) as (E & F & G & H).
+  unfold state_ok. rewrite A, B, C, D, E, F, G, H.
+  repeat (split; [reflexivity|]).
+  split; [|split; [|split; [|split; [|split]]]]; try reflexivity.
+  - intros n v L. rewrite lookup_assign_all, L by assumption. reflexivity.
+  - intros L. rewrite lookup_assign_all, L, st_fixed_lookup by assumption. reflexivity.
+  - intros L. rewrite lookup_assign_all, L, st_fixed_lookup by assumption. reflexivity.
+  - intros n L Hin. rewrite lookup_assign_all, L, st_fixed_lookup by assumption.
+    destruct (bytes_eqb n (bs "HOME")) eqn:E1;
+      [apply bytes_eqb_eq in E1; exfalso; apply Hin; rewrite E1; left; reflexivity|].
+    destruct (bytes_eqb n (bs "TMPDIR")) eqn:E2;
+      [apply bytes_eqb_eq in E2; exfalso; apply Hin; rewrite E2; right; left; reflexivity|].
+    destruct (bytes_eqb n (bs "PWD")) eqn:E3;
+      [apply bytes_eqb_eq in E3; exfalso; apply Hin; rewrite E3; right; right; left; reflexivity|].
+    destruct (bytes_eqb n (bs "OLDPWD")) eqn:E4;
+      [apply bytes_eqb_eq in E4; exfalso; apply Hin; rewrite E4; right; right; right; left; reflexivity|].
+    reflexivity.
+Qed.
+
+(** The value of [i]: for the k-th actor of a multi-actor definition whose
+    `with` clause does not itself assign i, a decimal string denoting k. *)
+Lemma i_of_kth k ws st caller workDir name redirect :
+  state_ok caller st workDir name (with_i k ws) redirect ->
+  last_assigned (bs "i") ws = None ->
+  lookup_var (bs "i") st = Some (itoa k, true) /\ atoi (itoa k) = Some k.
+Proof.
+  intros (_ & _ & H & _) L. split; [|apply atoi_itoa].
+  apply H. rewrite last_assigned_with_i, L. reflexivity.
+Qed.
+
+(** The assignments of the definition's own `with` clause survive the i=<k>
+    put in front of them. *)
+Lemma with_i_keeps k ws n v : last_assigned n ws = Some v -> last_assigned n (with_i k ws) = Some v.
+Proof. intros L. rewrite last_assigned_with_i, L. reflexivity. Qed.
+
+Theorem every_actor_every_script rds ads actors :
+  cast_of rds ads = Ok actors ->
+  exists roles, resolve_roles [] rds = Ok roles /\
+  forall na, In na actors ->
+  exists d, In d ads /\ from_def roles d (snd na) /\
+  forall ws, Forall wf_item ws -> ad_env d = render_with ws ->
+  forall caller shell runDir s, In s (actor_scripts (snd na)) ->
+    let a := snd na in
+    let wd := work_dir runDir (a_name a) in
+    let redirect := kind_redirect (s_kind s) in
+    dir_ok wd redirect -> (redirect = true -> name_ok (s_name s)) ->
+    script_text shell runDir a s = render_lines (script_prefix shell runDir a s ++ [s_cmd s]) /\
+    exists st,
+      exec_prefix caller (script_prefix shell runDir a s) = Some st /\
+      state_ok caller st wd (s_name s) (actor_clause a ws) redirect /\
+      (forall n v, last_assigned n ws = Some v -> lookup_var n st = Some (v, true)) /\
+      (forall k, a_index a = Some k -> last_assigned (bs "i") ws = None ->
+                 lookup_var (bs "i") st = Some (itoa k, true) /\ atoi (itoa k) = Some k).
+Proof.
+  intros H. apply cast_actor_from_def in H as (roles & R & Hall).
+  exists roles. split; [exact R|]. intros na Hin.
+  destruct (Hall na Hin) as (_ & d & Hd & Hf). exists d. split; [exact Hd|]. split; [exact Hf|].
+  intros ws Hw He caller shell runDir s Hs a wd redirect Hdir Hname.
+  split; [reflexivity|].
+  destruct (actor_env_render roles d a ws Hf Hw He) as [Ea Wa].
+  rewrite script_prefix_eq. fold a. rewrite Ea.
+  destruct (command_state caller shell wd (s_name s) (actor_clause a ws) redirect Hdir Hname Wa) as (st & X & Y).
+  exists st. split; [exact X|]. split; [exact Y|]. split.
+  - intros n v L. destruct Y as (_ & _ & Y & _). apply Y.
+    unfold actor_clause. destruct (a_index a); [apply with_i_keeps|]; exact L.
+  - intros k Hk L. unfold actor_clause in Y. rewrite Hk in Y. eapply i_of_kth; eauto.
+Qed.
+
+(** From conditions on the run directory and the actor's name to [dir_ok]. *)
+Lemma work_dir_ok runDir a redirect :
+  is_abs runDir = true -> plain_text runDir = true -> plain_word a = true -> dir_ok (work_dir runDir a) redirect.
+Proof.
+  intros Ha Hp Hw. unfold dir_ok, work_dir.
+  assert (P : plain_text (runDir ++ bs "/artifacts/" ++ a) = true).
+  { apply plain_text_app; [exact Hp|]. apply plain_text_app; [reflexivity|apply plain_word_text; exact Hw]. }
+  split; [apply is_abs_app; exact Ha|]. split; [|intros _; exact P].
+  unfold quotable, plain_text in *. rewrite forallb_forall in *. intros c Hc.
+  specialize (P c Hc). apply orb_true_iff in P as [P|P].
+  - rewrite (harmless_not_quote _ P). reflexivity.
+  - apply byte_eqb_eq in P; subst c. reflexivity.
 Qed.
